@@ -912,6 +912,44 @@ func authProbe() map[string]interface{} {
 	return map[string]interface{}{"kind": "authprobe", "n": n, "bad": bad, "rows": rows, "login": login, "pass": pass}
 }
 
+// gorilla/mux path cleaning alone: an empty router answers 301 exactly when cleanPath(path) != path, otherwise 404.
+// model/Router.v transcribes "cleanPath(p) == p" as path_clean; compared inside Coq on these strings.
+func pathProbe(seed int64) map[string]interface{} {
+	type row struct {
+		Path     string `json:"path"` // hex
+		Redirect bool   `json:"redirect"`
+		Location string `json:"location,omitempty"`
+	}
+	r := mux.NewRouter()
+	rq := hx.Rand(seed + 4242)
+	const alpha = "//..ab-"
+	seen := map[string]bool{}
+	var rows []row
+	try := func(p string) {
+		if seen[p] {
+			return
+		}
+		seen[p] = true
+		req := httptest.NewRequest("GET", "http://qryn.test"+p, nil)
+		rec := httptest.NewRecorder()
+		r.ServeHTTP(rec, req)
+		rows = append(rows, row{hx.Hex(p), rec.Code == 301, rec.Header().Get("Location")})
+	}
+	for _, p := range []string{"", "/", "//", "/.", "/..", "/a", "/a/", "/a//", "/a/.", "/a/..", "/a/./b", "/a/../b", "/.a", "/a.", "/..a", "/a..", "/...", "/a/...", "/./", "/../", "/a/b/", "/a/b/../", "/-"} {
+		try(p)
+	}
+	for i := 0; i < 1500; i++ {
+		n := 1 + rq.Intn(11)
+		b := make([]byte, n)
+		for j := range b {
+			b[j] = alpha[rq.Intn(len(alpha))]
+		}
+		b[0] = '/'
+		try(string(b))
+	}
+	return map[string]interface{}{"kind": "pathprobe", "rows": rows}
+}
+
 // http.DefaultServeMux of THIS process: the harness links the repository's packages (ctrl, reader, writer, view, shared), so
 // whatever their imports register on the default mux (net/http/pprof, expvar, http.Handle in an init) is registered here too.
 // The translator's census proves that nothing serves the default mux; if something does, these are the paths it exposes.
@@ -1010,6 +1048,7 @@ func main() {
 	out.Put(muxProbe())
 	out.Put(mwProbe())
 	out.Put(authProbe())
+	out.Put(pathProbe(f.Seed))
 	out.Put(defaultMuxProbe(asm.DefaultMuxPatterns))
 
 	for ci, c := range configs {
@@ -1106,6 +1145,12 @@ func main() {
 			for _, d := range walkedBy[root] {
 				p := concrete(d.Tpl)
 				add("DELETE", p, "other-method")
+				if ci == 0 {
+					// HEAD is not implied by GET in gorilla/mux; method names are compared exactly (case-sensitive)
+					add("HEAD", p, "other-method")
+					add("get", p, "other-method")
+					add("PROPFIND", p, "other-method")
+				}
 				if c.Tier == "rich" {
 					add("GET", p+"/", "trailing-slash")
 				}
